@@ -803,11 +803,12 @@ CELER_FUNCTION void OrangeTrackView::set_dir(Real3 const& newdir)
             },
             lsa.universe());
 
-        // Normal is in *local* coordinates but newdir is in *global*: rotate
-        // up to check
+        // Normal is in the *surface level's* local coordinates but newdir is
+        // in *global*: rotate up from the surface level to check
         auto apply_transform = TransformVisitor{params_};
         auto rotate_up = [&normal](auto&& t) { normal = t.rotate_up(normal); };
-        for (auto level : range<int>(this->level().unchecked_get()).step(-1))
+        for (auto level :
+             range<int>(this->surface_level().unchecked_get()).step(-1))
         {
             apply_transform(rotate_up, this->get_transform(LevelId(level)));
         }
